@@ -287,7 +287,15 @@ func (v *Value) Len() int {
 func (v *Value) Slice(i, j int) *Value {
 	switch v.getResolvedValue().Kind() {
 	case reflect.Array, reflect.Slice:
-		return AsValue(v.getResolvedValue().Slice(i, j).Interface())
+		rv := v.getResolvedValue()
+		if rv.Kind() == reflect.Array && !rv.CanAddr() {
+			// reflect cannot slice an array that is not addressable
+			// (e.g. one passed by value in the context): slice a copy
+			tmp := reflect.New(rv.Type()).Elem()
+			tmp.Set(rv)
+			rv = tmp
+		}
+		return AsValue(rv.Slice(i, j).Interface())
 	case reflect.String:
 		runes := []rune(v.getResolvedValue().String())
 		return AsValue(string(runes[i:j]))
